@@ -1458,6 +1458,12 @@ class _Idioms(ast.NodeTransformer):
                 attr = "c_" if axv == 1 else "r_"
                 return ast.copy_location(ast.Subscript(value=ast.Attribute(value=ast.Name(id=f.value.id, ctx=ast.Load()), attr=attr, ctx=ast.Load()),
                                                        slice=ast.Tuple(elts=elts, ctx=ast.Load()), ctx=ast.Load()), node)
+        if isinstance(f, ast.Attribute) and f.attr == "open" and isinstance(f.value, (ast.Name, ast.Attribute)) and not (isinstance(f.value, ast.Name) and f.value.id in ("os", "io", "gzip", "bz2", "lzma", "tarfile", "zipfile", "codecs", "tokenize", "webbrowser", "shelve", "dbm", "wave", "aifc", "sunau", "Image", "h5py", "np", "numpy", "mtscomp")) \
+                and len(node.args) == 1 and not node.keywords and isinstance(node.args[0], ast.Constant) and isinstance(node.args[0].value, str) \
+                and node.args[0].value and set(node.args[0].value) <= set("rwxabt+"):
+            # path.open("r+b")  ==  open(path, "r+b")   (pathlib spelling of the builtin; the receiver is a path-like local, not a module)
+            self.n += 1
+            return ast.copy_location(ast.Call(func=ast.Name(id="open", ctx=ast.Load()), args=[f.value, node.args[0]], keywords=[]), node)
         if isinstance(f, ast.Attribute) and f.attr in ("asarray", "asanyarray") and isinstance(f.value, ast.Name) and f.value.id in ("np", "numpy") and len(node.args) == 1 \
                 and not node.keywords and isinstance(node.args[0], ast.Subscript):
             # np.asarray(x[...]) is x[...] (an indexing result is an array already; no copy, no conversion)
